@@ -1,5 +1,45 @@
+"""C04: a step never executes if a prerequisite failed, it is disabled or stopped first."""
 import family
+import gen
+from check_c01 import okoc
+from vlib import lit, ref, tmap
+
+
+def stop_shapes(rng, quick):
+    """a stop condition that fires while the guarded step waits at each of its blocking points (deploy input, enabled,
+    run input) or while it runs; `quick` finishes at once, `slow` later"""
+    items = []
+    for where in ['deploy', 'enabling', 'starting', 'running', 'never']:
+        for slow_ms in ([40] if quick else [15, 40, 120]):
+            g = {'input': tmap({'id': lit('g')})}
+            if where != 'never':
+                g['stop_if'] = ref('steps.quick.outputs.success.tok')
+            if where == 'deploy':
+                g['deploy'] = tmap({'deployer_name': lit('scripted'), 'tag': ref('steps.slow.outputs.success.tok')})
+            elif where == 'enabling':
+                g['enabled'] = ref('steps.slow.enabling.resolved.enabled')
+                g['wait_for'] = ref('steps.slow.outputs.success')   # keeps the enabled value from arriving early
+                g['enabled'] = gen.fexpr('$.steps.slow.outputs.success.tok != ""', ['steps.slow.outputs.success.tok'])
+                del g['wait_for']
+            elif where == 'starting':
+                g['input'] = tmap({'id': lit('g'), 'deps': tmap({'x': ref('steps.slow.outputs.success.tok')})})
+            wf = {'steps': {'quick': {'kind': 'plugin', 'pstep': 'nowork', 'fields': {'input': tmap({'id': lit('quick')})}},
+                            'slow': {'kind': 'plugin', 'pstep': 'nowork', 'fields': {'input': tmap({'id': lit('slow')})}},
+                            'g': {'kind': 'plugin', 'pstep': 'work', 'fields': g}},
+                  'outputs': {'executed': tmap({'r': ref('steps.g.outputs.success.tok')}),
+                              'stopped': tmap({'c': ref('steps.g.closed.result.cancelled'), 's': ref('steps.slow.outputs.success.tok')}),
+                              'signalled': tmap({'r': ref('steps.g.outputs.cancelled_early.tok')})}}
+            oc = {'quick': okoc(), 'slow': okoc(), 'g': dict(okoc(), stop=(where != 'never'))}
+            script = {'quick': {'exec': {'out': 'success'}}, 'slow': {'exec': {'out': 'success', 'delay_ms': slow_ms}},
+                      'g': {'exec': {'out': 'success', 'delay_ms': 60 if where == 'running' else 2}}}
+            if where == 'running':
+                # the stop condition depends on the slow step instead, so that it fires while g executes
+                g['stop_if'] = ref('steps.slow.outputs.success.tok')
+                script['slow']['exec']['delay_ms'] = 20
+            items.append({'wf': wf, 'oc': oc, 'script': script, 'input': {'x': 'x', 'n': 1, 'flag': True},
+                          'schedule': gen.noise_schedule(rng, max_us=300), 'at': 'stop-while-%s slow=%d' % (where, slow_ms)})
+    return items
 
 
 def run(ctx):
-    family.run_family_check(ctx, 'C04', n_quick=40, n_thorough=400)
+    family.run_family_check(ctx, 'C04', n_quick=30, n_thorough=400, extra_items=lambda rng: stop_shapes(rng, ctx.quick))
